@@ -10,7 +10,7 @@ import (
 
 func init() {
 	register("C18", propMeta{
-		Explanation: "E-GUARD + E-PROV + E-OWN + E-LOCK. O-1 sanitiser shape: clientAddr returns a non-empty address only through param != \"\", net.ParseIP(param) != nil and !ip.IsUnspecified() on that parsed IP; the value is (&net.TCPAddr{IP: ip, Port: 1}).String() of the parsed IP; every other return is the empty ClientMapAddr. O-2 flow: ServeHTTP sanitises the client_ip query value of this request and passes exactly that to turbotunnelMode, which stores it under this carrier's ClientID by the only Set call; acceptStreams fetches the address once, before the stream loop, with the session's RemoteAddr().(ClientID), and every accepted connection carries that value, which RemoteAddr() returns; on the proxy side the client_ip value is the String() of the address computed by remoteIPFromSDP, which returns only addresses that pass isRemoteAddress. O-3 bounded ring: entries is allocated once with the capacity and never appended or re-sliced; oldest advances only as (oldest + 1) % len(entries); inserting current[k] = oldest is preceded on every path by the delete of the stale owner of that slot; len(entries) == 0 returns before indexing; every access to the ring is under its mutex, Get's read of the entry included. Each clause is necessary: e.g. reading entries[i] after releasing the lock returns another session's address. Added after the second seeding round: O-2 every path from the successful ClientID read to the packet loops passes clientIDAddrMap.Set (each carrier records its address, not only the first), and the relay URL that client_ip is written into is parsed by this invocation of datachannelHandler; O-3 Set takes a new slot on every call with a non-empty ring. Added after the third seeding round: ServeHTTP and its helpers store nothing in the handler object, which all requests of a listener share.",
+		Explanation: "E-GUARD + E-PROV + E-OWN + E-LOCK. O-1 sanitiser shape: clientAddr returns a non-empty address only through param != \"\", net.ParseIP(param) != nil and !ip.IsUnspecified() on that parsed IP; the value is (&net.TCPAddr{IP: ip, Port: 1}).String() of the parsed IP; every other return is the empty ClientMapAddr. O-2 flow: ServeHTTP sanitises the client_ip query value of this request and passes exactly that to turbotunnelMode, which stores it under this carrier's ClientID by the only Set call; acceptStreams fetches the address once, before the stream loop, with the session's RemoteAddr().(ClientID), and every accepted connection carries that value, which RemoteAddr() returns; on the proxy side the client_ip value is the String() of the address computed by remoteIPFromSDP, which returns only addresses that pass isRemoteAddress. O-3 bounded ring: entries is allocated once with the capacity and never appended or re-sliced; oldest advances only as (oldest + 1) % len(entries); inserting current[k] = oldest is preceded on every path by the delete of the stale owner of that slot; len(entries) == 0 returns before indexing; every access to the ring is under its mutex, Get's read of the entry included. Each clause is necessary: e.g. reading entries[i] after releasing the lock returns another session's address. Added after the second seeding round: O-2 every path from the successful ClientID read to the packet loops passes clientIDAddrMap.Set (each carrier records its address, not only the first), and the relay URL that client_ip is written into is parsed by this invocation of datachannelHandler; O-3 Set takes a new slot on every call with a non-empty ring. Added after the third seeding round: ServeHTTP and its helpers store nothing in the handler object, which all requests of a listener share. Added after the fourth seeding round: SnowflakeClientConn.RemoteAddr returns nothing but the stored address (no fallback to the wrapped stream's address, which is the ClientID).",
 		NotDecided:  "which carrier is 'most recent' under concurrent carriers (history-level), the address being forgotten when the ring overflowed between set and get (documented behaviour).",
 		Assumptions: []string{"net.ParseIP / IsUnspecified / TCPAddr.String behave as documented"},
 	}, runC18)
@@ -182,12 +182,31 @@ func runC18(c *Ctx) {
 		}
 		if ra := p.Fn("server/lib", "(*SnowflakeClientConn).RemoteAddr"); ra != nil {
 			ok := false
+			other := ""
 			for _, r := range returnsOf(ra) {
-				if _, f, okf := fieldLoad(r.Results[0]); okf && f.Name() == "address" {
-					ok = true
+				// every value that can be returned is the address field (a fallback to the wrapped stream's
+				// RemoteAddr hands the bridge the ClientID - neither an address nor nothing)
+				var leaves []ssa.Value
+				var walk func(v ssa.Value, d int)
+				walk = func(v ssa.Value, d int) {
+					if ph, isPhi := v.(*ssa.Phi); isPhi && d < 6 {
+						for _, e := range ph.Edges {
+							walk(e, d+1)
+						}
+						return
+					}
+					leaves = append(leaves, v)
+				}
+				walk(r.Results[0], 0)
+				for _, lf := range leaves {
+					if _, f, okf := fieldLoad(lf); okf && f.Name() == "address" {
+						ok = true
+					} else if !isNilConst(lf) {
+						other = p.instrPos(r)
+					}
 				}
 			}
-			c.check(ok, rule2, "SnowflakeClientConn.RemoteAddr returns the stored address", p.Pos(ra.Pos()), "", "RemoteAddr does not return the address field")
+			c.check(ok && other == "", rule2, "SnowflakeClientConn.RemoteAddr returns the stored address", p.Pos(ra.Pos()), "and nothing else", "RemoteAddr can return something other than the address recorded for the session ("+other+"): the bridge is told the KCP session's ClientID, or a carrier's address, as the client address")
 		}
 	}
 	// proxy side
